@@ -48,6 +48,7 @@ type Contract struct {
 	Aliasing string // "none" disables alias partitions, "all" default
 	NIA      bool
 	Pure     bool
+	CT       bool              // the function is under a secret-independence contract (C17)
 	Labels   map[string]string // C17 secrecy labels: name -> secret|public
 	Declass  []*Clause
 	NoFrame  bool
@@ -70,9 +71,10 @@ type LoopSpec struct {
 }
 
 type TypeSpec struct {
-	Name string
-	Pkg  string
-	Inv  []*Clause
+	Name   string
+	Pkg    string
+	Inv    []*Clause
+	Public map[string]bool // fields whose contents are public even inside a secret object ("*" = the whole type)
 }
 
 type Lemma struct {
@@ -365,6 +367,13 @@ func (db *SpecDB) loadFile(path string, pkgPath string, marker bool) error {
 					return err
 				}
 				curType.Inv = append(curType.Inv, c)
+			case "public":
+				if curType.Public == nil {
+					curType.Public = map[string]bool{}
+				}
+				for _, n := range splitList(rest) {
+					curType.Public[n] = true
+				}
 			default:
 				return fmt.Errorf("%s: unknown type clause %q", where, kw)
 			}
@@ -554,6 +563,8 @@ func (db *SpecDB) loadFile(path string, pkgPath string, marker bool) error {
 				for _, n := range splitList(rest) {
 					cur.Weak[n] = true
 				}
+			case "ct":
+				cur.CT = true
 			case "secret", "public":
 				for _, n := range splitList(rest) {
 					cur.Labels[n] = kw
